@@ -150,6 +150,8 @@ def _chunk(forms):
     from formulae.scanner import Scanner
     from formulae.parser import Parser
     from formulae import model_description
+    from formulae.resolver import Resolver
+    from ..contracts import algebra_c as ac
     evals = nontriv = 0
     bad = []
     known = 0
@@ -182,6 +184,17 @@ def _chunk(forms):
                 continue
             bad.append((f, "expansion differs from the set-semantics specification", str(spec), str(obs)))
             continue
+        # the specification function of the Resolver contract (vf/contracts/algebra_c.model_of), executed natively on the real syntax
+        # tree with the real operator overloads, against the real Resolver
+        try:
+            t1, t2 = Parser(Scanner(f).scan()).parse(), Parser(Scanner(f).scan()).parse()
+            if ac.wf_formula(t1):
+                got_m, want_m = Resolver(t1).resolve(), ac.model_of(t2)
+                if repr(got_m) != repr(want_m):
+                    bad.append((f, "Resolver's result differs from the operator-by-operator specification model_of", repr(want_m)[:300], repr(got_m)[:300]))
+                    continue
+        except Exception:       # noqa: BLE001 - formulas the operators refuse are judged by the expansion check above
+            pass
         sc, oc = expand_counts(tree), observed_counts(md)
         if sc != oc:
             bad.append((f, "number of terms per name differs from the specification (distinct factors merged or one factor kept twice)",
@@ -190,6 +203,7 @@ def _chunk(forms):
 
 
 def PROOFS():
+    from ..contracts import algebra_c
     T = "formulae.terms.terms."
     R = "formulae.terms.call_resolver."
     return [("vf.contracts.terms_c", [T + "Term.__init__", T + "Term.__eq__", T + "Model.__init__", T + "Model.add_term", T + "Model.terms",
@@ -197,7 +211,9 @@ def PROOFS():
             ("vf.contracts.call_resolver_c", [R + c for c in ("LazyValue.__eq__", "LazyCall.__eq__", "LazyOperator.__eq__", "LazyVariable.__eq__",
                                                               "LazyValue.__hash__", "LazyVariable.__hash__")]),
             ("vf.contracts.variable_c", ["formulae.terms.call.Call.__eq__", "formulae.terms.call.Call.__hash__",
-                                         "formulae.terms.variable.Variable.__eq__", "formulae.terms.variable.Variable.__hash__"])]
+                                         "formulae.terms.variable.Variable.__eq__", "formulae.terms.variable.Variable.__hash__"]),
+            # the Resolver: every operator token is wired to the documented operator of the term classes, operands in source order
+            ("vf.contracts.algebra_c", algebra_c.FUNCTIONS)]
 
 
 def run(report, findings):
